@@ -32,3 +32,20 @@ Theorem positions_spec : forall t order p acc n pre post,
   pos_of n (positions t order p acc) = p + fold_right (fun m a => node_len t m + a) 0 pre.
 Proof. exact Proofs.positions_spec. Qed.
 Print Assumptions positions_spec.
+
+(* ---- the overflow repairs that cut a subtable in two (ModelSplit.v: splitPairPos formats 1 and 2, splitSinglePos): for every first
+   glyph the two halves, tried in order as a lookup does, give the record the whole subtable gave *)
+From FV Require C06.ModelSplit C06.ProofsSplit.
+Theorem split_by_coverage_same : forall (t a b : ModelSplit.cov_table Z),
+  length (ModelSplit.cov t) = length (ModelSplit.recs t) -> ModelSplit.split_cov t = Some (a, b) ->
+  forall g, ModelSplit.first_of (ModelSplit.cov_lookup a g) (ModelSplit.cov_lookup b g) = ModelSplit.cov_lookup t g.
+Proof. exact ProofsSplit.split_cov_same_Z. Qed.
+Print Assumptions split_by_coverage_same.
+
+(* class pairs: glyphs the ClassDef does not list are class 0 and stay with the first half; classes are renumbered in the second *)
+Theorem split_by_class_same : forall (t a b : ModelSplit.class_table Z),
+  NoDup (map fst (ModelSplit.classDefs t)) -> (forall kv, In kv (ModelSplit.classDefs t) -> 0 <= snd kv) ->
+  ModelSplit.split_class t = Some (a, b) ->
+  forall g, ModelSplit.first_of (ModelSplit.class_lookup a g) (ModelSplit.class_lookup b g) = ModelSplit.class_lookup t g.
+Proof. exact ProofsSplit.split_class_same_Z. Qed.
+Print Assumptions split_by_class_same.
